@@ -99,7 +99,8 @@ class C01:
         "the synchronous API is the reference model (a bug present identically in both twins is invisible here)",
         "template sources are static during a run (edits are C23's subject)",
     ]
-    REQUIRED_REACH = ["fault.cancel_landed", "fault.loader_error", "reach.suspended_op", "reach.overlap", "reach.same_template_concurrently",
+    REQUIRED_REACH = ["fault.cancel_landed", "fault.loader_error", "reach.second_event_loop",
+                      "reach.edited_between_loops", "reach.suspended_op", "reach.overlap", "reach.same_template_concurrently",
                       "reach.exec_out_of_order", "reach.drop_suspension", "reach.op.render", "reach.op.load",
                       "reach.op.analyze", "reach.op.helper", "reach.outcome.err"]
 
@@ -168,6 +169,20 @@ class C01:
             for op in c["ops"]:
                 if rng.chance(0.06):
                     op["cancel_after"] = round(rng.random() * 0.01, 5)   # this caller gives up; the others must not notice
+        seq_edit = None
+        if kind == "cfs" and rng.chance(0.25):
+            # one sequential caller, a small cache, by-name operations: eviction order matters
+            ops = []
+            for _ in range(rng.randint(6, 12)):
+                op = gen_op()
+                if "main" in op and op["op"] in ("render", "analyze", "helper") and rng.chance(0.8):
+                    op.pop("main")
+                    op["name"] = rng.choice(names)
+                    op["ns"] = None
+                    op["globals"] = None
+                ops.append(op)
+            clients = [{"id": 0, "ops": ops}]
+            seq_edit = rng.sample(names, rng.randint(1, min(2, len(names))))
         override = None
         if kind == "fs" and rng.chance(0.5):
             # two search directories; between two phases of the run (nothing in flight) some names gain a
@@ -193,10 +208,15 @@ class C01:
         return {
             "pkg": "lvc01_%x" % (run_seed & 0xFFFFFFFF),
             "recipe": recipe, "loader": kind, "ns_key": NS_KEY if rng.chance(0.5) else "",
-            "capacity": rng.choice([1, 2, 300]), "auto_reload": rng.chance(0.7),
+            "capacity": rng.choice([1, 2] if seq_edit else [1, 2, 300]), "auto_reload": rng.chance(0.7),
             "uptodate": rng.choice(["fs-like", "sync", "none"]), "ext": rng.choice([None, ".liquid"]),
             "templates": templates, "mains": mains, "datas": datas, "clients": clients, "override": override,
             "loader_faults": loader_faults, "factory": rng.chance(0.25),
+            # the application runs its operations in two successive event loops (asyncio.run twice)
+            "segments": 2 if override is None and (seq_edit or rng.chance(0.2)) else 1,
+            # sequential runs on a caching file-system loader: between the two halves some sources are
+            # edited in place; both APIs replay the same history, so their caches must agree afterwards
+            "edit_between": seq_edit,
             "sched_seed": rng.randrange(1 << 30),
             "lat": {"max": 0.01, "zero_p": rng.choice([0.1, 0.4]), "stall_p": rng.choice([0.0, 0.03])},
             "profile": rng.chance(0.04),
@@ -425,9 +445,18 @@ class C01:
                     return tmpl_obs(await ctx.get_template_async(op["name"]))
             return await outcome_async(f())
 
-        async def client(c, phase="ops"):
+        nseg = sc.get("segments", 1)
+
+        def part(c, phase, si):
+            ops = c.get(phase) or []
+            if nseg == 1 or phase != "ops" or si is None:
+                return ops
+            h = (len(ops) + 1) // 2
+            return ops[:h] if si == 0 else ops[h:]
+
+        async def client(c, phase="ops", si=None):
             me = "c%d" % c["id"]
-            for op in c.get(phase) or []:
+            for op in part(c, phase, si):
                 loop.streams[me] = loop.rng.fork("op", op["uid"])
                 await loop.latency("think")
                 kind = {"render_named": "render", "env_render": "render", "toplevel": "render", "ctx_load": "load",
@@ -475,10 +504,13 @@ class C01:
                     self._report(add, sc, op, got, want)
                     return
 
-        async def root():
-            ts = [loop.create_task(client(c), name="c%d" % c["id"]) for c in sc["clients"] if c["ops"]]
+        async def root(si=None):
+            ts = [loop.create_task(client(c, "ops", si), name="c%d" % c["id"]) for c in sc["clients"]
+                  if part(c, "ops", si)]
             if ts:
                 await asyncio.gather(*ts)
+            if si == 0:
+                return
             if sc.get("override") and not viol:
                 loop.event("override")
                 for nm in sc["override"]["names"]:
@@ -490,24 +522,53 @@ class C01:
                 if ts:
                     await asyncio.gather(*ts)
 
+        tot = {"jobs": 0, "ooo": 0, "susp": 0, "time": 0.0, "steps": 0, "isig": []}
+
+        def account():
+            tot["jobs"] += loop.executor_jobs
+            tot["ooo"] += loop.executor_out_of_order
+            tot["susp"] += loop.suspensions
+            tot["time"] += loop.time()
+            tot["steps"] += loop.steps
+            tot["isig"].append(loop.interleaving_signature())
         try:
-            loop.run_sim(root())
+            if nseg == 1:
+                loop.run_sim(root())
+                account()
+            else:
+                loop.run_sim(root(0))
+                account()
+                if not viol:
+                    if sc.get("edit_between"):
+                        # nothing is in flight: some sources are edited in place (new text, later mtime)
+                        for nm in sc["edit_between"]:
+                            rel = nm if "." in nm.rsplit("/", 1)[-1] or not sc["ext"] else nm + sc["ext"]
+                            fs.write("root/" + rel, "EDIT<" + sources[nm] + ">", 7)
+                        bump(st, "reach.edited_between_loops")
+                    prev = loop
+                    loop = SimLoop(Rng(sc["sched_seed"], ("sched", 1)), step_cap=200000, lat_profile=sc["lat"])
+                    loop.seq = prev.seq
+                    loop.log = prev.log
+                    loop_ref[0] = loop
+                    bump(st, "reach.second_event_loop")
+                    loop.run_sim(root(1))
+                    account()
         except SimDeadlock:
             add("liveness", "liveness:deadlock", {"log_tail": loop.log[-10:]})
         except SimStepCap:
             raise RuntimeError("HARNESS-TIMEOUT: SimLoop step cap")
         bump(st, "runs.loader." + sc["loader"])
-        bump(st, "exec.jobs", loop.executor_jobs)
-        bump(st, "reach.exec_out_of_order", loop.executor_out_of_order)
-        bump(st, "suspensions", loop.suspensions)
+        bump(st, "exec.jobs", tot["jobs"])
+        bump(st, "reach.exec_out_of_order", tot["ooo"])
+        bump(st, "suspensions", tot["susp"])
         bump(st, "reach.drop_suspension", sum(1 for e in loop.log if e[2].startswith("drop") and e[2].endswith(".suspend")))
         bump(st, "reach.overlap", overlap[0])
         bump(st, "reach.same_template_concurrently", same_tmpl[0])
-        res["sim_time"] = loop.time()
-        res["steps"] = loop.steps
-        res["isig"] = loop.interleaving_signature()
+        res["sim_time"] = tot["time"]
+        res["steps"] = tot["steps"]
+        res["isig"] = tot["isig"][0] if len(tot["isig"]) == 1 else digest(tot["isig"])
         res["digest"] = digest((loop.log, history))
-        res["nontrivial"] = bool(overlap[0] and (loop.suspensions > len(history) or loop.executor_jobs))
+        res["nontrivial"] = bool(overlap[0] and (tot["susp"] > len(history) or tot["jobs"]))
 
     def _report(self, add, sc, op, got, want):
         k = {"render_named": "render", "env_render": "render", "toplevel": "render"}.get(op["op"], op["op"])
@@ -558,6 +619,10 @@ class C01:
                 yield {**sc, "clients": cl[:i] + [{**c, "ops2": cand}] + cl[i + 1:]}
         if sc.get("override") and not any(c.get("ops2") for c in cl):
             yield {**sc, "override": None}
+        if sc.get("segments", 1) > 1 and not sc.get("edit_between"):
+            yield {**sc, "segments": 1}
+        if sc.get("edit_between"):
+            yield {**sc, "edit_between": None}
         used_m = sorted({op["main"] for c in cl for op in c["ops"] + (c.get("ops2") or []) if "main" in op})
         for m in used_m:
             for t in G.shrink_tree(sc["mains"][m]):
